@@ -54,6 +54,66 @@ def attach_order_rule(ctx, rule):
             rule.ok(key, "", c.loc)
         else:
             rule.violation(key, "init_object_writer can be reached without the FDT instance id being recorded", c.loc)
+    replay_order_rule(ctx, rule)
+
+
+def replay_order_rule(ctx, rule):
+    """the packet cache is replayed in the order the packets were received (shared by C16.R2 and C02.R5): the sender puts the close-object
+    flag on its last packet; replayed first, that packet interrupts an object whose other symbols are still waiting in the cache"""
+    prog = ctx.prog
+    grow_end = set()
+    for s, ai, mut in calls_on_field(prog, OR, "cache"):
+        m = method_name(s)
+        if ai != 0:
+            continue
+        if m in ("push", "push_back", "extend", "append"):
+            grow_end.add("back")
+        elif m == "push_front" or (m == "insert" and show(s.expr[2][1]) == "0"):
+            grow_end.add("front")
+        elif m == "insert":
+            grow_end.add("?")
+    f = prog.fn(OR + "::push_from_cache")
+    ctx.analysed(f.path)
+    fl = Flow(f.body)
+    key = "push_from_cache replays the cache in reception order"
+    takes = []
+    for s, ai, mut in calls_on_field(prog, OR, "cache", funcs=[f]):
+        if ai != 0:
+            continue
+        m = method_name(s)
+        if m in ("pop", "pop_back"):
+            takes.append((s, "back"))
+        elif m == "pop_front" or (m in ("remove", "swap_remove") and show(s.expr[2][1]) == "0"):
+            takes.append((s, "front"))
+        elif m in ("remove", "swap_remove", "swap_remove_back", "swap_remove_front", "split_off"):
+            takes.append((s, "?"))
+        elif m in ("drain", "into_iter", "iter", "iter_mut"):
+            takes.append((s, "front"))
+    # `for item in std::mem::take(&mut self.cache)`: the taken vector is iterated front to back
+    for s in call_sites(f, lambda p, c: re.search(r"mem::(take|replace)$", p) is not None):
+        if "self.cache" in show(s.expr[2][0]):
+            rev_after = any(method_name(z).startswith("rev") for z in call_sites(f, lambda p, c: re.search(r"Iterator::rev$|::reverse$", p) is not None))
+            takes.append((s, "back" if rev_after else "front"))
+    # (`self.cache.reverse()` is a slice method: its receiver is `deref_mut(&mut self.cache)`)
+    revs = [s for s in call_sites(f, lambda p, c: re.search(r"::reverse$", p) is not None) if re.search(r"\bself\.cache\b", show(s.expr[2][0], 200))]
+    if not takes or not grow_end:
+        raise model.AnchorMissing("push_from_cache: how the cache is consumed (%d) / filled (%s) was not recognised" % (len(takes), sorted(grow_end)))
+    if "?" in grow_end or len(grow_end) != 1:
+        rule.violation(key, "the cache is filled at %s: no single reception order to replay" % sorted(grow_end), loc(f.sp))
+        return
+    g = list(grow_end)[0]
+    for (s, end) in takes:
+        flipped = bool(revs) and all(fl.dominates(r_.bb, s.bb) and r_.bb != s.bb for r_ in revs)
+        if revs and not flipped:
+            rule.violation(key, "self.cache.reverse() does not run exactly once before every take", s.loc)
+            return
+        eff = end if not flipped else {"back": "front", "front": "back"}.get(end, "?")
+        if eff == "?" or eff == g:
+            rule.violation(key, "packets are appended at the %s of the cache (%s) and replayed from the %s (%s%s): last in, first out. The packet carrying the "
+                                "close-object flag - the last one sent - is then replayed first and interrupts an object all of whose symbols are in the cache" % (
+                                    g, "push", eff, method_name(s), " after reverse()" if flipped else ""), s.loc)
+            return
+    rule.ok(key, "filled at the %s, taken from the %s" % (g, "front" if g == "back" else "back"), takes[0][0].loc)
 
 
 def run(ctx):
